@@ -23,6 +23,7 @@ type nodeExtra struct {
 	// connectivity as the node's lightning daemon reports it (ListPeers)
 	disconnected map[int]bool
 	servedAt     map[string]time.Duration // task/chain -> when it was last told the height
+	maxFeeKw     int64                    // highest Bitcoin fee rate (sat/kw) the estimator has told this node
 }
 
 // ---------------------------------------------------------------------------
